@@ -365,6 +365,10 @@ def plan_C03(w):
     # the property itself at design level: every linearization of a node's event set
     # yields the same values and block bodies (C03_OrderIndependent)
     run_mc(w, [("hg2o", "MC_hg2o.cfg", 6, 600)] if q else [("hg2ot", "MC_hg2ot.cfg", 12, 1500)])
+    # random pairwise-gossip DAGs, screened for a difference between per-event and
+    # once-at-the-end insertion (cache = number of candidates per trace)
+    rk = [("ordR", dict(traces=2, steps=75, sched="randdag", cache=250))] if q else \
+         [("ordR%d" % i, dict(traces=3, steps=75 + 10 * i, sched="randdag", cache=500, arg="thorough")) for i in range(3)]
     if q:
         kinds = [("ordA", dict(traces=4, n=0, steps=70)), ("ordB", dict(traces=2, n=4, steps=110)), ("ordF", dict(traces=3, sched="funky"))]
     else:
@@ -372,8 +376,9 @@ def plan_C03(w):
                 [("ordN4a", dict(traces=2, n=4, steps=200, arg="thorough")), ("ordN4b", dict(traces=2, n=4, steps=200, arg="thorough")),
                  ("ordN7", dict(traces=1, n=7, steps=220, arg="thorough")),
                  ("ordF", dict(traces=12, sched="funky", arg="thorough"))]
+    kinds += rk
     # (the drivers are single-threaded and the thorough variants re-feed every DAG many times: run them side by side)
-    traces, sums = drive_par(w, gossip_specs(w, kinds), "orders", par=7, timeout=3000) if not q else drive_all(w, gossip_specs(w, kinds), mode="orders")
+    traces, sums = drive_par(w, gossip_specs(w, kinds), "orders", par=7 if not q else 4, timeout=3000)
     g = [("gsp", dict(traces=3 if q else 10, n=0, steps=100 if q else 220, sched="mix"))]
     t2, s2 = drive_all(w, gossip_specs(w, g))
     ts, ss = sched_traces(w, q)
